@@ -45,10 +45,12 @@ class PROP(PropCheck):
     id = "C15"
     theorems = ["C15_math_table_is_reference", "C15_round_int_integral", "C15_round_int_specials", "C15_show_specials",
                 "C15_search_in_interval", "C15_layout_integer", "C15_random_in_range", "C15_random_reaches_both_ends",
-                "C15_roundtrip_examples"]
+                "C15_roundtrip_examples", "C15_show_total", "C15_show_shortest", "C15_show_parse_roundtrip"]
+    audit_modules = ["C15", "C15b"]
+    allowed_axioms = ("FloatAxioms.Prim2SF_valid", "Prim2SF_valid", "FloatAxioms.Prim2SF_SF2Prim", "Prim2SF_SF2Prim")
     coq_imports = ["Obs"]
     model_targets = ["theories/Obs.vo"]
-    prop_targets = ["theories/Props/C15.vo"]
+    prop_targets = ["theories/Props/C15.vo", "theories/Props/C15b.vo"]
     harness_mode = "run"
     trusted_base = [
         "Coq 8.16.1 kernel and bytecode VM; primitive floats",
@@ -112,10 +114,10 @@ class PROP(PropCheck):
             if ar == 1:
                 for x in SPECIAL:
                     out.append(self.math_case(name, [x]))
-                for _ in range((5 if quick else 400) * scale):
+                for _ in range((5 if quick else 150) * scale):
                     out.append(self.math_case(name, [rnd_double(rng)]))
             else:
-                for _ in range((40 if quick else 1500) * scale):
+                for _ in range((40 if quick else 800) * scale):
                     out.append(self.math_case(name, [rng.choice(SPECIAL) if rng.random() < 0.6 else rnd_double(rng) for _ in range(ar)]))
         for _ in range((60 if quick else 3000) * scale):
             v = [rng.choice(SPECIAL[:20]) if rng.random() < 0.5 else rnd_double(rng) for _ in range(3)]
@@ -124,11 +126,11 @@ class PROP(PropCheck):
             r = (v[1] if math.isnan(r) else (r if math.isnan(v[1]) else max(r, v[1])))
             r = (v[2] if math.isnan(r) else (r if math.isnan(v[2]) else min(r, v[2])))
             out.append(Case(src, meta={"clamp": v}))
-        for _ in range((100 if quick else 20000) * scale):
+        for _ in range((100 if quick else 4000) * scale):
             out.append(self.text_case([rnd_double(rng) for _ in range(3)]))
         for e in range(-8, 23):
             out.append(self.text_case([10.0 ** e, 2.0 ** e, float(3 * 10 ** max(e, 0))]))
-        for _ in range((100 if quick else 10000) * scale):
+        for _ in range((100 if quick else 4000) * scale):
             d = rng.randint(1, 17)
             t = str(rng.randint(1, 10 ** d - 1))
             k = rng.randint(0, len(t))
@@ -193,7 +195,7 @@ class PROP(PropCheck):
         if r["cls"] != "OK":
             return "the program did not complete: " + (impl or "")[:100]
         exp = case.meta.get("exp")
-        if exp is not None and r["out"] != exp:
+        if exp is not None and not Y.same_output_numbers(r["out"], exp):
             return "result differs from the reference (expected %r got %r)" % (exp[:200], r["out"][:200])
         return None
 
